@@ -7,3 +7,5 @@ package jet
 const verifOn = false
 
 func vt(st *Runtime, ev string, args ...interface{}) {}
+
+func verifLex(l *lexer) uint64 { return 0 }
